@@ -772,3 +772,22 @@ def project_search(sc, run):
                           "dbg": "step=%r est=%r" % (step, est)})
             cur = None
     return lines
+
+
+def project_momentum(sc, run):
+    """MomentumTrace vocabulary."""
+    lines = [{"e": "reset"}]
+    for ev in run:
+        k = ev["ev"]
+        if k == "momentum":
+            lines.append({"e": "momentum", "resample": bool(ev["resample"]), "ke_ok": bool(ev.get("ke_ok", False)),
+                          "dim": ev.get("dim", -1), "found": ev.get("found", "no"), "from": ev.get("from", -1),
+                          "to": ev.get("to", -1), "micro": bool(ev.get("micro"))})
+        elif k == "leap":
+            if lines[-1]["e"] != "leap":          # only the first leapfrog after a boundary matters
+                lines.append({"e": "leap"})
+        elif k == "search_start":
+            lines.append({"e": "search"})
+        elif k in ("set_position", "draw_out"):
+            lines.append({"e": "end", "call": k, "res": ev.get("res")})
+    return lines
